@@ -1,4 +1,5 @@
 mod cmd_lin;
+mod c14probe;
 mod cmd_wtstages;
 mod cmd_sizes;
 mod gen_families;
